@@ -28,6 +28,15 @@ DISJOINT = {
     ('convert_args', 'Args'): 'parenthesised part (up to `)`) vs trailing content blocks (after `)`)',
     ('convert_set_rule', 'Args'): 'set rule arguments have no trailing content blocks converted separately',
 }
+# pairs of converters that one converter may apply to its own node / the parts of it on the same path, because they convert disjoint children
+DISJOINT_PAIRS = {
+    'convert_func_call_args': {frozenset(('convert_parenthesized_args', 'convert_additional_args')), frozenset(('convert_table', 'convert_additional_args')),
+                               frozenset(('convert_parenthesized_args_as_list', 'convert_additional_args'))},      # `( .. )` part vs trailing content blocks
+    'convert_args': {frozenset(('convert_parenthesized_args', 'convert_additional_args'))},
+}
+UNEVALUATED_OK = {
+    'convert_table': 'the cell loops are evaluated per iteration in the site table; the header / columns analysis multiplies the complete paths beyond the bound',
+}
 LEAFY = re.compile(r'convert_(trivia|verbatim|comment|ident|text|space|literal)|::comment$')
 
 
@@ -111,18 +120,40 @@ def r2_no_double_conversion(w):
                   % (last(fn), last(o.loop[0]), node.kind, last(f1), last(f2)))
         else:
             r.ok(cons, 'each child converted at most once per iteration')
+    import itertools
     for (fn, parent), wholes in sorted(se.wholes.items()):
         if wholes is None:
+            # complete paths exceeded the evaluator's bounds: accepted only for the converters listed (their loops are covered per iteration above)
+            cons = {'converter': last(fn), 'parent': parent, 'complete_paths': 'not evaluated'}
+            why = UNEVALUATED_OK.get(last(fn))
+            if why:
+                r.ok(cons, 'complete paths not evaluated: ' + why)
+            else:
+                r.bad(cons, '%s|%s|paths-not-evaluated' % (last(fn), parent),
+                      'the complete paths of %s could not be evaluated within bounds, so a second conversion of its node on one path would go unnoticed (fail closed)' % last(fn))
             continue
         bad = None
+        bad_pair = None
         for wh in wholes:
             d = [x for x in _dups(wh.converts or []) if x[2].tag == 'parent']
-            if d:
+            if d and bad is None:
                 bad = d[0]
-                break
+            # several converters applied to the converter's own node parameters (the node and parts of it handed in separately, e.g. `func_call` and its
+            # `args`) on one path: every pair has to be a confirmed pair of disjoint parts
+            own = [(c[0], c[1]) for c in (wh.converts or []) if isinstance(c[1], Node) and c[1].tag in ('parent', 'parent2') and not LEAFY.search(c[0])]
+            if len({n_.tag for _f, n_ in own}) > 1 or last(fn) in DISJOINT_PAIRS:
+                for (f1, n1), (f2, n2) in itertools.combinations(own, 2):
+                    if frozenset((last(f1), last(f2))) not in DISJOINT_PAIRS.get(last(fn), ()) and bad_pair is None:
+                        bad_pair = (f1, f2)
         n += 1
         cons = {'converter': last(fn), 'parent': parent, 'complete_paths': len(wholes)}
-        if bad:
+        if bad_pair:
+            f1, f2 = bad_pair
+            r.bad(cons, '%s|%s|twice' % (last(fn), parent),
+                  '%s hands its own node (or a part of it that it was given separately) to two converters on one path (%s and %s) and the pair is not in the table of disjoint parts: '
+                  'the subtree is converted twice - one result is thrown away - which multiplies with nesting (`x.unwrap_or(self.convert_b(..))` evaluates the fallback eagerly)'
+                  % (last(fn), last(f1), last(f2)))
+        elif bad:
             f1, f2, node = bad
             why = DISJOINT.get((last(fn), parent))
             if why:
